@@ -292,13 +292,19 @@ func vpH_C06_store() { vpStoreHarness("C06.", false) }
 func vpH_C14_reopen() { vpStoreHarness("C14.", true) }
 
 func vpStoreHarness(prefix string, restart bool) {
-	const n = 3
+	n := 3
 	pks := [2]string{vpPkA, vpPkB}
 	focus := 0
 	if restart {
 		focus = 2 * vpChoice("focus", 2) // deletion requests; versions
 	} else {
 		focus = vpChoice("focus", 3)
+	}
+	// thorough tier: additionally 4-event histories of the deletion and version families, one
+	// batch per event (the restart harness reopens after every batch), the match-everything query
+	long := vpTier() > 0 && focus != 1 && vpChoice("long", 2) == 1
+	if long {
+		n = 4
 	}
 	sc := &vpScenario{flush: make([]bool, n), reopen: make([]bool, n), twice: make([]bool, n)}
 	for i := 0; i < n; i++ {
@@ -372,9 +378,16 @@ func vpStoreHarness(prefix string, restart bool) {
 		}
 	}
 	batches := 0
-	if restart {
+	switch {
+	case long:
+		batches = -1
+		for i := 0; i < n; i++ {
+			sc.flush[i] = true
+			sc.reopen[i] = restart
+		}
+	case restart:
 		batches = 2 + vpChoice("restart", 5)
-	} else {
+	default:
 		batches = vpChoice("batches", 4)
 	}
 	switch batches {
@@ -397,7 +410,12 @@ func vpStoreHarness(prefix string, restart bool) {
 	case 6: // one batch, inserted twice, then a reopen
 		sc.flush[n-1], sc.twice[n-1], sc.reopen[n-1] = true, true, true
 	}
-	switch focus {
+	fsel := focus
+	if long {
+		fsel = -1
+		sc.filters = []*mocrelay.ReqFilter{{}}
+	}
+	switch fsel {
 	case 0:
 		switch vpChoice("filter", 3) {
 		case 0:
